@@ -213,7 +213,7 @@ pub fn qr_svg(content: &str, options: SvgOptions) -> String {
         builder.image_gap(gap);
     }
 
-    if options.image_size.len() == 2 {
+    if options.image_position.len() == 2 {
         let x = options.image_position[0];
         let y = options.image_position[1];
         builder.image_position(x, y);
